@@ -100,6 +100,8 @@ def netlists(draw, max_nodes=20, min_nodes=1, ops=None, n_regs=(0, 0), reg_opts=
     widths = [w for w in (widths or WIDTHS) if w <= max_w]
     n_in = draw(st.integers(1, 4))
     inputs = [{'w': draw(st.sampled_from(widths))} for _ in range(n_in)]
+    if domains:
+        inputs[0]['w'] = 1          # a directly controllable enable candidate
     nodes = []
     sigs = [('i%d' % k, inputs[k]['w']) for k in range(n_in)]
 
@@ -243,7 +245,7 @@ def netlists(draw, max_nodes=20, min_nodes=1, ops=None, n_regs=(0, 0), reg_opts=
         one_bit = [s for s, w in sigs if w == 1]
         for g in groups:
             if one_bit and draw(st.booleans()):
-                g['enable'] = draw(st.sampled_from(one_bit))
+                g['enable'] = draw(st.sampled_from(one_bit + ['i0'] * (1 + len(one_bit) // 2)))
     order = draw(st.permutations(list(range(len(nodes)))))
     return {'inputs': inputs, 'nodes': nodes, 'outputs': outs, 'order': list(order), 'groups': groups}
 
